@@ -554,6 +554,11 @@ def gen_trees(ck):
               [("a", ("L", [("I", 1), ("L", [E, ("I", 5)])]))]]
     for sh in shapes:
         yield ("shape", sh)
+    # 4b. the witnesses of the *_refuted theorems of Properties/C18.v and neighbours: outside the property's domain
+    # (names outside [A-Za-z0-9_]+, a Tag that is not a tag token); correspondence only, no oracle
+    for kv in ([("a b", ("I", 1))], [("", ("I", 1))], [("a/b", ("I", 1))], [("a", ("T", b"( )"))], [("\u00e9", ("I", 1))],
+               [("a", ("T", b"(a"))], [("a", ("P", "x y"))], [("a.b", ("D", [("c", ("I", 1))]))], [("a", ("T", b"5"))]):
+        yield ("guard", kv)
     # 5. random trees up to the tier's depth
     maxd = 6 if thorough else 4
     for i in range(12000 if thorough else 1500):
@@ -803,8 +808,12 @@ def run():
         ntree += 1
         t = ("D", kvs)
         dp = depth(t)
+        in_domain = wf_tree(t)
+        if not in_domain:
+            ck.count("guard:outside the property's domain (name / tag form)")
         for ly in (0, 1):
-            b = oracle_tree(ck, kvs, ly)
+            if in_domain:
+                oracle_tree(ck, kvs, ly)
             w = impl_write(kvs, ly)
             wcases.append(((ly, kvs), [h63_list(0, w)]))
             if w[0] == 0:
